@@ -143,9 +143,13 @@ def run(db, rep):
         bad = None
         n_cmp = 0
         for i, r in enumerate(rt):
-            if r[1] == "rest":
+            if r[1] == "rest" or not r[3].is_const():
                 break
+            if i < len(wt) and not wt[i][3].is_const():
+                break       # a variable-length item of the writer holds whatever follows (e.g. BootP::vend_ for DHCP)
             if i >= len(wt):
+                if i > 0 and not wt[-1][3].is_const():
+                    break
                 bad = "the constructor reads `%s` (%s bytes) but write_serialization writes nothing at that position" % (r[2], r[3])
                 break
             wv = wt[i]
